@@ -171,13 +171,13 @@ class Tier:
         self.va5 = ["1", "M1"] if q else ["1", "128", "nil", "M1"]
         self.va6 = ["1", "M1"] if q else ["1", "128", "M1"]
         # ---- comparators
-        self.vb12 = ["1", "0", "127", "128", "-128", "-129", "1.5", "NAN", "nil", '"s"', ":k", "S3", "U5", "M1"]
+        self.vb12 = ["1", "0", "127", "128", "-128", "-129", "1.5", "NAN", "nil", "false", "true", '"s"', ":k", "S3", "U5", "M1"]
         self.vb3 = (["1", "128", "-129", "1.5", "nil", "S3", "NAN"] if q else self.vb12)
         self.vb4 = ["1", "128", "nil"] if q else ["1", "128", "1.5", "nil", "S3", "NAN"]
         self.vb5 = ["1", "128"] if q else ["1", "128", "nil", "S3"]
         self.vb6 = ["1", "128"] if q else ["1", "128", "nil"]
         # ---- contexts section
-        self.vctx = ["1", "nil", "M1"] if q else ["1", "128", "nil", "M1", "S3"]
+        self.vctx = ["1", "nil", "false", "M1"] if q else ["1", "128", "nil", "false", "M1", "S3"]
         self.vctx3 = ["1"] if q else ["1", "nil", "M1"]
         self.ctxs = ["val", "drop", "set", "if", "while", "whilec", "up", "upt", "setg", "far", "farset"]
         # ---- alias section
